@@ -8,6 +8,26 @@ from ..exceptions import SecurityError
 from ..urls import uri_to_iri
 
 
+def _strip_port(host: str) -> str:
+    """Remove a trailing ``:port`` from a host. The brackets of an IP
+    literal, and the colons inside them, are part of the host.
+    """
+    if host.startswith("["):
+        literal, sep, rest = host.partition("]")
+
+        if sep and (not rest or rest.startswith(":")):
+            return literal + sep
+
+        return host
+
+    name, sep, _ = host.rpartition(":")
+
+    if sep and ":" not in name:
+        return name
+
+    return host
+
+
 def host_is_trusted(hostname: str | None, trusted_list: t.Iterable[str]) -> bool:
     """Check if a host matches a list of trusted names.
 
@@ -21,8 +41,8 @@ def host_is_trusted(hostname: str | None, trusted_list: t.Iterable[str]) -> bool
         return False
 
     try:
-        hostname = hostname.partition(":")[0].encode("idna").decode("ascii")
-    except UnicodeEncodeError:
+        hostname = _strip_port(hostname).encode("idna").decode("ascii")
+    except UnicodeError:
         return False
 
     if isinstance(trusted_list, str):
@@ -36,8 +56,8 @@ def host_is_trusted(hostname: str | None, trusted_list: t.Iterable[str]) -> bool
             suffix_match = False
 
         try:
-            ref = ref.partition(":")[0].encode("idna").decode("ascii")
-        except UnicodeEncodeError:
+            ref = _strip_port(ref).encode("idna").decode("ascii")
+        except UnicodeError:
             return False
 
         if ref == hostname or (suffix_match and hostname.endswith(f".{ref}")):
